@@ -211,6 +211,7 @@ func checkC06(c *Ctx) error {
 				continue
 			}
 			bounds := r.Chance(1, 4)
+			extras := r.Chance(1, 3)
 			clash := ""
 			if r.Chance(1, 2) {
 				clash = plan.ClashName()
@@ -225,6 +226,13 @@ func checkC06(c *Ctx) error {
 					// the user's package is called like a package it imports
 					cc.Files["harness.go"] = p.HarnessClash(bounds, clash)
 					cc.Files["__pkgname__"] = clash
+				}
+				if extras {
+					// files that belong to the directory but not to the package:
+					// an external test package and a file excluded by its build
+					// constraint; both sort after every other Go file
+					cc.Files["zz_ext_test.go"] = "package PKGNAME_test\n\nimport \"testing\"\n\nfunc TestNothing(t *testing.T) {}\n"
+					cc.Files["zzz_tool.go"] = "//go:build ignore\n\npackage main\n\nfunc main() {}\n"
 				}
 				cc.Intern, cc.Stub = in, st
 				cc.Origin = pc.Origin + "/" + p.Fault
